@@ -26,7 +26,7 @@ def cell(r):
 
 def main():
     seeded = load("cross_*.json")
-    for pat in ("seeded_results.json", "final_own.json"):
+    for pat in ("seeded_results.json", "final_own.json", "final_round4.json"):
         for name, row in load(pat).items():
             for c, r in row.items():
                 seeded.setdefault(name, {})[c] = r  # later, targeted runs override (final_own.json: last full pass with the final checks)
@@ -59,13 +59,13 @@ def main():
     open(os.path.join(VERIF, "seeded", "README.md"), "w").write("\n".join(out) + "\n")
 
     own = load("own_results.json")
-    for pat in ("harmless_0*.json", "harmless_fix.json"):  # later files override
+    for pat in ("harmless_0*.json", "harmless_fix.json", "harmless5_results.json"):  # later files override
         for name, row in load(pat).items():
             own.setdefault(name, {}).update(row)
     o2 = ["# Own mutants and harmless rewrites", "",
           "`selftest/own/*.diff`: reverts of the `fix:` commits, small hand-made defects, and HARMLESS-* rewrites that keep every property true;",
           "`selftest/harmless/HARMLESS-agent-*.diff`: behaviour-preserving maintenance commits written by sub-agents (refactor / constant or strategy",
-          "cut-over / control-flow restructuring, three per property for eight properties). Legend as in seeded/README.md; HARMLESS rows should be all `·`.", "",
+          "cut-over / control-flow restructuring, three per property for eight properties); `selftest/harmless5/HARMLESS5-*.diff`: 24 more (12 source areas x 2, last session). Legend as in seeded/README.md; HARMLESS rows should be all `·`.", "",
           "| change | " + " | ".join(c[1:] for c in checks) + " |", "|---|" + "---|" * len(checks)]
     for name in sorted(own):
         o2.append("| %s | %s |" % (name.replace(".diff", ""), " | ".join(cell(own[name].get(c)) for c in checks)))
